@@ -58,9 +58,9 @@ CHECKS["C20"] = dict(
                  "the process environment is private to the check process; cases run one at a time per process"],
     exhaustive_when_parts=None,
     parts=[
-        P("parse", "unit", "TestC20Parse", dict(checks=48000, shards=16, timeout=600), dict(checks=400000, shards=16, timeout=3000)),
-        P("states", "unit", "TestC20States", dict(checks=1, shards=4, split=False, timeout=600), dict(checks=1, shards=16, split=False, timeout=3000), rapid=False),
-        P("valid", "unit", "TestC20Valid", dict(checks=32000, shards=16, timeout=600), dict(checks=200000, shards=4, timeout=3000)),
+        P("parse", "unit", "TestC20Parse", dict(checks=48000, shards=16, timeout=600), dict(checks=400000, shards=16, timeout=3000), env={"GOMAXPROCS": "3"}),
+        P("states", "unit", "TestC20States", dict(checks=1, shards=4, split=False, timeout=600), dict(checks=1, shards=16, split=False, timeout=3000), rapid=False, env={"GOMAXPROCS": "3"}),
+        P("valid", "unit", "TestC20Valid", dict(checks=32000, shards=16, timeout=600), dict(checks=200000, shards=4, timeout=3000), env={"GOMAXPROCS": "3"}),
     ],
 )
 
